@@ -47,6 +47,8 @@ typedef struct {
   /* entitlement model for arrays */
   int noff, off_vars[6];    /* loadoff: scalar operands used as element offsets */
   int up;                   /* loadupdb/loadupib used on it */
+  int up_interp;            /* ... loadupib (reads (i>>1)+1 for odd i) */
+  int plain;                /* read by an ordinary access of elements 0..n-1 */
   int res_b, res_c;         /* ldres*: var indices of b and c operands (-1 none) */
   int res_lin;
   int read, wrote_mem;
